@@ -172,7 +172,9 @@ def run_case(rng, idx, tier):
             fm = max(float(np.linalg.norm(rf[1][:3])), 1e-300)
             em = float(np.linalg.norm(r[1][:3] - rf[1][:3])) / fm
             worst["in-place move vs fresh"] = max(worst.get("in-place move vs fresh", 0.0), em)
-            if bool(r[0]) != bool(rf[0]) or em > REL:
+            # two different computations (history bodies after another re-expression vs. fresh bodies), each with the
+            # 5 % discretisation noise the property allows: judged at 2 x 5 % (6.4 % was seen on the unchanged tree)
+            if bool(r[0]) != bool(rf[0]) or em > 2 * REL:
                 viol.append({"key": dict(key0, kind="relation-violated", relation="in-place pose edit = fresh bodies at the new pose"), "err": em,
                              "msg": "contact_forces(%s,%s) [%s] after body 2 was moved in place by %s: force differs from fresh bodies at the same poses by %.3g of |f| (flag %s vs %s)" % (
                                  k1, k2, placement, dlt.tolist(), em, r[0], rf[0])})
